@@ -132,6 +132,9 @@ func processFindings(r *Run, expectEnd string) []Finding {
 		if e.Ev == "hang" {
 			fs = addFinding(fs, "hang@"+site, "the emulator blocked in Read although the network had nothing more to send", -1)
 		}
+		if e.Ev == "spin" {
+			fs = addFinding(fs, "hang.spin@"+site, fmt.Sprintf("the emulator never ends: %v", e.Info["reason"]), -1)
+		}
 	}
 	kind, where := crashSite(stderr)
 	switch expectEnd {
